@@ -1,11 +1,17 @@
 (** C10 — search results obey the algebra of the search syntax.  Property theorems only.
     Proved: a result set is determined by the set of glob forms of the unfolded searches (so equal unfoldings give equal
     results on ANY list), the "," rule at the level of the unfolding (cartesian product), no duplicates, results are
-    entries of the data set.  The alias / "**" / filter / literal rules are checked as result-set equalities on the
-    implementation on every run (tools/props/c10.py): NOT theorems (partial). *)
+    entries of the data set; and, from the C07 denotation (Search/AlgebraProofs.v), for the list-backed finder, every
+    configuration passing [unfold_conf_okb] and searches in the guarded fragment (plain strings, url-safe filters, no ">"):
+    the characterisation of a search result and the FIVE rewrite rules as set equalities.  The guards are explicit and
+    decidable ([shortcut_okb]: a typed non-search Sid is searched as itself, so narrowing must keep its string; [lit_ok] /
+    [filt_okb]: the list finder does not re-type entries; [narrow_stableb]); each rule is instantiated on the live
+    configuration below.  On FindInPaths / FindInAll the rules are checked as result-set equalities on the implementation
+    over real trees (tools/props/c10.py) and follow for star searches from C11_tree_search_spec. *)
 From Coq Require Import List String Ascii Bool Arith Permutation Sorted.
 From Spil Require Import Base.Str Base.Dict Base.Outcome Regex.Re Conf.Conf Conf.WF Sid.Sid
-  Search.Unfold Search.FindList Search.GlobProofs Search.FindListProofs Search.UnfoldProofs.
+  Search.Unfold Search.FindList Search.GlobProofs Search.FindListProofs Search.UnfoldProofs
+  Resolva.Template Resolva.Resolver Sid.TypingSpec Search.UnfoldSpec Search.AlgebraDefs Search.AlgebraProofs.
 From SpilGen Require Hamlet.
 Import ListNotations.
 Local Open Scope string_scope.
@@ -51,3 +57,326 @@ Example C10_instance :
   = Ok ["hamlet/a/char/x/model/v001/w/ma"; "hamlet/a/char/x/model/v001/w/mb"].
 Proof. vm_compute. reflexivity. Qed.
 Print Assumptions C10_instance.
+
+(** ** The algebra as theorems (list-backed finder) *)
+
+(* what a list search returns: the entries glob-matched by a typed search the expression denotes (C07 denotation); no duplicates *)
+Theorem C10_find_list_denotes :
+  forall (c : Conf) (Ld : Loaded),
+  load c = Some Ld ->
+  wf_loadedb Ld = true ->
+  unfold_conf_okb Ld = true ->
+  forall (items : list string) (s : string) (l : list string),
+  guarded Ld s -> find_list Ld items s = Ok l -> NoDup l /\ (forall e : string, In e l <-> In e items /\ matched Ld s e).
+Proof. exact find_list_denotes. Qed.
+Print Assumptions C10_find_list_denotes.
+
+(* rule 1: a "," list = the union of its alternatives *)
+Theorem C10_comma_rule :
+  forall (c : Conf) (Ld : Loaded),
+  load c = Some Ld ->
+  wf_loadedb Ld = true ->
+  unfold_conf_okb Ld = true ->
+  forall (items pre : list string) (a b : string) (post l la lb : list string),
+  Forall noslash pre ->
+  Forall noslash post ->
+  alt_okb a = true ->
+  alt_okb b = true ->
+  (post = [] -> a <> "" /\ b <> "") ->
+  search_ok (mk pre (a ++ "," ++ b) post) = true ->
+  shortcut_okb Ld (mk pre (a ++ "," ++ b) post) = true ->
+  nosort Ld (mk pre (a ++ "," ++ b) post) ->
+  search_ok (mk pre a post) = true ->
+  shortcut_okb Ld (mk pre a post) = true ->
+  search_ok (mk pre b post) = true ->
+  shortcut_okb Ld (mk pre b post) = true ->
+  find_list Ld items (mk pre (a ++ "," ++ b) post) = Ok l ->
+  find_list Ld items (mk pre a post) = Ok la ->
+  find_list Ld items (mk pre b post) = Ok lb -> NoDup l /\ (forall e : string, In e l <-> In e la \/ In e lb).
+Proof. exact comma_rule2. Qed.
+Print Assumptions C10_comma_rule.
+
+(* ... for any number of alternatives, in any segment *)
+Theorem C10_comma_rule_n :
+  forall (c : Conf) (Ld : Loaded),
+  load c = Some Ld ->
+  wf_loadedb Ld = true ->
+  unfold_conf_okb Ld = true ->
+  forall (items pre alts post l : list string) (ls : list (list string)),
+  alts <> [] ->
+  Forall noslash pre ->
+  Forall noslash post ->
+  Forall (fun a : string => alt_okb a = true) alts ->
+  (post = [] -> Forall (fun a : string => a <> "") alts) ->
+  search_ok (mk pre (join "," alts) post) = true ->
+  shortcut_okb Ld (mk pre (join "," alts) post) = true ->
+  nosort Ld (mk pre (join "," alts) post) ->
+  (forall a : string, In a alts -> search_ok (mk pre a post) = true /\ shortcut_okb Ld (mk pre a post) = true) ->
+  find_list Ld items (mk pre (join "," alts) post) = Ok l ->
+  Forall2 (fun (a : string) (l' : list string) => find_list Ld items (mk pre a post) = Ok l') alts ls ->
+  NoDup l /\ (forall e : string, In e l <-> (exists l' : list string, In l' ls /\ In e l')).
+Proof. exact comma_rule. Qed.
+Print Assumptions C10_comma_rule_n.
+
+(* rule 2: an alias = the union of its member extensions *)
+Theorem C10_alias_rule :
+  forall (c : Conf) (Ld : Loaded),
+  load c = Some Ld ->
+  wf_loadedb Ld = true ->
+  unfold_conf_okb Ld = true ->
+  forall (items pre : list string) (a : string) (ms l : list string) (ls : list (list string)),
+  Forall noslash pre ->
+  noslash a ->
+  dget (c_extension_alias (l_conf Ld)) a = Some ms ->
+  a <> "" ->
+  mem_c "," a = false ->
+  Forall (fun m : string => dmem (c_extension_alias (l_conf Ld)) m = false) ms ->
+  search_ok (mk pre a []) = true ->
+  shortcut_okb Ld (mk pre a []) = true ->
+  nosort Ld (mk pre a []) ->
+  (forall m : string, In m ms -> search_ok (mk pre m []) = true /\ shortcut_okb Ld (mk pre m []) = true) ->
+  find_list Ld items (mk pre a []) = Ok l ->
+  Forall2 (fun (m : string) (l' : list string) => find_list Ld items (mk pre m []) = Ok l') ms ls ->
+  NoDup l /\ (forall e : string, In e l <-> (exists l' : list string, In l' ls /\ In e l')).
+Proof. exact alias_rule. Qed.
+Print Assumptions C10_alias_rule.
+
+(* rule 3: "**" = the union over the numbers n of "/*" levels, restricted to leaf types *)
+Theorem C10_dstar_rule :
+  forall (c : Conf) (Ld : Loaded),
+  load c = Some Ld ->
+  wf_loadedb Ld = true ->
+  unfold_conf_okb Ld = true ->
+  forall items pre post l : list string,
+  pre <> [] ->
+  Forall noslash pre ->
+  Forall noslash post ->
+  (post = [] -> dmem (c_extension_alias (l_conf Ld)) "**" = false) ->
+  (post = [] -> dmem (c_extension_alias (l_conf Ld)) "*" = false) ->
+  (post = [] -> lastpre_ok Ld pre) ->
+  search_ok (mk pre "**" post) = true ->
+  shortcut Ld (mk pre "**" post) = false ->
+  nosort Ld (mk pre "**" post) ->
+  find_list Ld items (mk pre "**" post) = Ok l ->
+  NoDup l /\ (forall e : string, In e l <-> In e items /\ (exists n : nat, matched_by (levels_on Ld pre n post) e)).
+Proof. exact dstar_rule. Qed.
+Print Assumptions C10_dstar_rule.
+
+(* rule 4: appending a filter k=v on a key the searched types have open = the results whose field k is v *)
+Theorem C10_filter_rule :
+  forall (c : Conf) (Ld : Loaded),
+  load c = Some Ld ->
+  wf_loadedb Ld = true ->
+  unfold_conf_okb Ld = true ->
+  forall (items : list string) (body k v : string) (l lf : list string),
+  search_ok body = true ->
+  contains "**" body = false ->
+  narrow_stableb Ld body = true ->
+  shortcut_okb Ld body = true ->
+  nosort Ld body ->
+  atomb k = true ->
+  atomb v = true ->
+  literalb v = true ->
+  startswith "~" v = false ->
+  value_alts Ld k v = [v] ->
+  filt_okb Ld body k v = true ->
+  ~ In "" (bodies Ld body) ->
+  shortcut Ld (body ++ "?" ++ k ++ "=" ++ v) = false ->
+  nosort_by (denotes_q Ld body [(k, v)]) ->
+  find_list Ld items body = Ok l ->
+  find_list Ld items (body ++ "?" ++ k ++ "=" ++ v) = Ok lf ->
+  NoDup lf /\ (forall e : string, In e lf <-> In e l /\ field_in Ld body k e v).
+Proof. exact filter_rule. Qed.
+Print Assumptions C10_filter_rule.
+
+(* rule 5: replacing a "*" by a literal = the subset having that value *)
+Theorem C10_literal_rule :
+  forall (c : Conf) (Ld : Loaded),
+  load c = Some Ld ->
+  wf_loadedb Ld = true ->
+  unfold_conf_okb Ld = true ->
+  forall (items pre : list string) (v : string) (post l lv : list string),
+  Forall noslash pre ->
+  Forall noslash post ->
+  noslash v ->
+  literalb v = true ->
+  mem_c "," v = false ->
+  (post = [] -> v <> "" /\ dmem (c_extension_alias (l_conf Ld)) v = false) ->
+  (post = [] -> dmem (c_extension_alias (l_conf Ld)) "*" = false) ->
+  lit_ok Ld pre post v ->
+  search_ok (mk pre "*" post) = true ->
+  contains "**" (mk pre "*" post) = false ->
+  narrow_stableb Ld (mk pre "*" post) = true ->
+  shortcut_okb Ld (mk pre "*" post) = true ->
+  nosort Ld (mk pre "*" post) ->
+  search_ok (mk pre v post) = true ->
+  contains "**" (mk pre v post) = false ->
+  narrow_stableb Ld (mk pre v post) = true ->
+  shortcut_okb Ld (mk pre v post) = true ->
+  nosort Ld (mk pre v post) ->
+  find_list Ld items (mk pre "*" post) = Ok l ->
+  find_list Ld items (mk pre v post) = Ok lv ->
+  NoDup lv /\ (forall e : string, In e lv <-> In e l /\ nth_error (split_c "/" e) (Datatypes.length pre) = Some v).
+Proof. exact literal_rule. Qed.
+Print Assumptions C10_literal_rule.
+
+(* the characterisation with a trailing url-safe query *)
+Theorem C10_find_list_query_denotes :
+  forall (c : Conf) (Ld : Loaded),
+  load c = Some Ld ->
+  wf_loadedb Ld = true ->
+  unfold_conf_okb Ld = true ->
+  forall (items : list string) (body : string) (qd : list (string * string)) (l : list string),
+  search_ok body = true ->
+  query_okb qd = true ->
+  ~ In "" (bodies Ld body) ->
+  shortcut Ld (body ++ "?" ++ query_str qd) = false ->
+  nosort_by (denotes_q Ld body qd) ->
+  find_list Ld items (body ++ "?" ++ query_str qd) = Ok l ->
+  NoDup l /\ (forall e : string, In e l <-> In e items /\ matched_by (denotes_q Ld body qd) e).
+Proof. exact find_list_query_denotes. Qed.
+Print Assumptions C10_find_list_query_denotes.
+
+(** ** Every rule instantiated on the configuration of this run: all guards discharged by computation *)
+
+Definition L := Hamlet.the_loaded.
+
+Lemma conf_unfold_ok : unfold_conf_okb L = true.
+Proof. vm_compute. reflexivity. Qed.
+
+Definition items : list string :=
+  ["hamlet/a/char/ophelia"; "hamlet/a/char/claudius"; "hamlet/a/prop/skull"; "hamlet/a/char";
+   "hamlet/a/char/ophelia/model/v001/w/ma"; "hamlet/a/char/ophelia/model/v001/w/mb";
+   "hamlet/a/char/ophelia/model/v001/w/mp4"; "hamlet/a/char/ophelia/model";
+   "hamlet/s/sq010/sh0010"; "hamlet/x/char/ophelia"].
+
+(* computation, only on decidable goals (never normalise a Prop that mentions the configuration) *)
+Ltac calc :=
+  match goal with
+  | |- @eq bool _ _ => vm_compute; reflexivity
+  | |- noslash _ => vm_compute; reflexivity
+  | |- @eq (outcome _) _ _ => vm_compute; reflexivity
+  | |- @eq (list string) _ _ => vm_compute; reflexivity
+  | |- @eq (option _) _ _ => vm_compute; reflexivity
+  end.
+Ltac nosort_calc := apply (nosortb_nosort Hamlet.the_conf L Hamlet.the_loaded_eq Hamlet.conf_wf conf_unfold_ok); calc.
+Ltac f2 := repeat (first [apply Forall2_nil | apply Forall2_cons; [calc|]]).
+Ltac segs := match goal with |- Forall _ _ => repeat constructor end.
+
+(** Rule 0: the characterisation of [find_list] *)
+Example C10_denotes_hamlet :
+  NoDup ["hamlet/a/char/ophelia"; "hamlet/a/char/claudius"] /\
+  forall e, In e ["hamlet/a/char/ophelia"; "hamlet/a/char/claudius"] <-> In e items /\ matched L "hamlet/a/char/*" e.
+Proof.
+  apply (find_list_denotes Hamlet.the_conf L Hamlet.the_loaded_eq Hamlet.conf_wf conf_unfold_ok items "hamlet/a/char/*").
+  - split; [calc|]. split; [calc | nosort_calc].
+  - calc.
+Qed.
+
+(** Rule 1: "hamlet/a/char/ophelia,claudius" = "hamlet/a/char/ophelia" U "hamlet/a/char/claudius" *)
+Example C10_comma_hamlet :
+  NoDup ["hamlet/a/char/claudius"; "hamlet/a/char/ophelia"] /\
+  forall e, In e ["hamlet/a/char/claudius"; "hamlet/a/char/ophelia"] <->
+            In e ["hamlet/a/char/ophelia"] \/ In e ["hamlet/a/char/claudius"].
+Proof.
+  apply (comma_rule2 Hamlet.the_conf L Hamlet.the_loaded_eq Hamlet.conf_wf conf_unfold_ok items
+           ["hamlet"; "a"; "char"] "ophelia" "claudius" []); try calc; try segs.
+  - intros _. split; discriminate.
+  - nosort_calc.
+Qed.
+
+(* a "," list in a middle segment, three alternatives *)
+Example C10_comma_middle_hamlet :
+  NoDup ["hamlet/a/char/ophelia"; "hamlet/a/char/claudius"; "hamlet/a/prop/skull"] /\
+  forall e, In e ["hamlet/a/char/ophelia"; "hamlet/a/char/claudius"; "hamlet/a/prop/skull"] <->
+    exists l', In l' [["hamlet/a/char/ophelia"; "hamlet/a/char/claudius"]; ["hamlet/a/prop/skull"]; []] /\ In e l'.
+Proof.
+  apply (comma_rule Hamlet.the_conf L Hamlet.the_loaded_eq Hamlet.conf_wf conf_unfold_ok items
+           ["hamlet"; "a"] ["char"; "prop"; "set"] ["*"]); try calc; try segs; try discriminate.
+  - nosort_calc.
+  - intros a [<-|[<-|[<-|[]]]]; split; calc.
+  - f2.
+Qed.
+
+(** Rule 2: the alias "maya" = "ma" U "mb" *)
+Example C10_alias_hamlet :
+  NoDup ["hamlet/a/char/ophelia/model/v001/w/ma"; "hamlet/a/char/ophelia/model/v001/w/mb"] /\
+  forall e, In e ["hamlet/a/char/ophelia/model/v001/w/ma"; "hamlet/a/char/ophelia/model/v001/w/mb"] <->
+    exists l', In l' [["hamlet/a/char/ophelia/model/v001/w/ma"]; ["hamlet/a/char/ophelia/model/v001/w/mb"]] /\ In e l'.
+Proof.
+  apply (alias_rule Hamlet.the_conf L Hamlet.the_loaded_eq Hamlet.conf_wf conf_unfold_ok items
+           ["hamlet"; "a"; "char"; "ophelia"; "model"; "v001"; "w"] "maya" ["ma"; "mb"]); try calc; try segs; try discriminate.
+  - nosort_calc.
+  - intros m [<-|[<-|[]]]; split; calc.
+  - f2.
+Qed.
+
+(** Rule 3: "hamlet/a/char/**" *)
+Example C10_dstar_hamlet :
+  NoDup ["hamlet/a/char/ophelia/model/v001/w/ma"; "hamlet/a/char/ophelia/model/v001/w/mb";
+         "hamlet/a/char/ophelia/model/v001/w/mp4"] /\
+  forall e, In e ["hamlet/a/char/ophelia/model/v001/w/ma"; "hamlet/a/char/ophelia/model/v001/w/mb";
+                  "hamlet/a/char/ophelia/model/v001/w/mp4"] <->
+    In e items /\ exists n, matched_by (levels_on L ["hamlet"; "a"; "char"] n []) e.
+Proof.
+  apply (dstar_rule Hamlet.the_conf L Hamlet.the_loaded_eq Hamlet.conf_wf conf_unfold_ok items ["hamlet"; "a"; "char"] []);
+    try calc; try segs; try discriminate.
+  - intros _. calc.
+  - intros _. calc.
+  - intros _ x. vm_compute. tauto.
+  - nosort_calc.
+Qed.
+
+(** Rule 4: "hamlet/a/*/*?assettype=char" = the results of "hamlet/a/*/*" whose assettype is "char" *)
+Example C10_filter_hamlet :
+  NoDup ["hamlet/a/char/ophelia"; "hamlet/a/char/claudius"] /\
+  forall e, In e ["hamlet/a/char/ophelia"; "hamlet/a/char/claudius"] <->
+    In e ["hamlet/a/char/ophelia"; "hamlet/a/char/claudius"; "hamlet/a/prop/skull"] /\
+    field_in L "hamlet/a/*/*" "assettype" e "char".
+Proof.
+  apply (filter_rule Hamlet.the_conf L Hamlet.the_loaded_eq Hamlet.conf_wf conf_unfold_ok items "hamlet/a/*/*" "assettype" "char");
+    try calc.
+  - nosort_calc.
+  - vm_compute. intros [H|[]]. discriminate H.
+  - apply (nosortb_query Hamlet.the_conf L Hamlet.the_loaded_eq Hamlet.conf_wf conf_unfold_ok "hamlet/a/*/*" [("assettype", "char")]); try calc.
+    vm_compute. intros [H|[]]. discriminate H.
+Qed.
+
+(** Rule 5: "hamlet/a/char/ophelia" = the results of "hamlet/a/char/*" whose 4th segment is "ophelia" *)
+Example C10_literal_hamlet :
+  NoDup ["hamlet/a/char/ophelia"] /\
+  forall e, In e ["hamlet/a/char/ophelia"] <->
+    In e ["hamlet/a/char/ophelia"; "hamlet/a/char/claudius"] /\ nth_error (split_c "/" e) 3 = Some "ophelia".
+Proof.
+  apply (literal_rule Hamlet.the_conf L Hamlet.the_loaded_eq Hamlet.conf_wf conf_unfold_ok items ["hamlet"; "a"; "char"] "ophelia" []);
+    try calc; try segs.
+  - intros _. split; [discriminate | calc].
+  - intros _. calc.
+  - apply lit_okb_ok. calc.
+  - nosort_calc.
+  - nosort_calc.
+Qed.
+
+(* a literal in a middle segment: the shortcut is not taken on either side *)
+Example C10_literal_middle_hamlet :
+  NoDup ["hamlet/a/char/ophelia"; "hamlet/a/char/claudius"] /\
+  forall e, In e ["hamlet/a/char/ophelia"; "hamlet/a/char/claudius"] <->
+    In e ["hamlet/a/char/ophelia"; "hamlet/a/char/claudius"; "hamlet/a/prop/skull"] /\
+    nth_error (split_c "/" e) 2 = Some "char".
+Proof.
+  apply (literal_rule Hamlet.the_conf L Hamlet.the_loaded_eq Hamlet.conf_wf conf_unfold_ok items ["hamlet"; "a"] "char" ["*"]);
+    try calc; try segs; try discriminate.
+  - apply lit_okb_ok. calc.
+  - nosort_calc.
+  - nosort_calc.
+Qed.
+
+Print Assumptions C10_comma_hamlet.
+Print Assumptions C10_alias_hamlet.
+Print Assumptions C10_dstar_hamlet.
+Print Assumptions C10_filter_hamlet.
+Print Assumptions C10_literal_hamlet.
+
+Print Assumptions C10_denotes_hamlet.
+Print Assumptions C10_comma_middle_hamlet.
+Print Assumptions C10_literal_middle_hamlet.
